@@ -274,6 +274,77 @@ func RunSizes(col *ev.Collector) Stats {
 				}
 			}
 		}
+		// a stream that ends inside a message of this size: every cut at the start of a top-level field of the
+		// message (where a protobuf prefix is itself a well-formed message) and every cut in the first and last
+		// 40 bytes must be reported as an error, never decoded as a shorter message
+		{
+			big := raftpb.Message{Type: raftpb.MsgApp, From: 1, To: 2, FromGroup: p[0], ToGroup: p[1], Term: 1, LogTerm: 1, Index: 0, Entries: append(ents(0, 1, 1, size), ents(1, 2, 1, 5)...), Commit: 2}
+			var tb bytes.Buffer
+			tenc := rafthttp.VerifNewV2Enc(&tb)
+			if perr := safely(func() error { return tenc.Encode(&big) }); perr == nil {
+				frame := append([]byte(nil), tb.Bytes()...)
+				body, _ := big.Marshal()
+				hdr := len(frame) - len(body)
+				cuts := map[int]bool{}
+				for c := 0; c < 40 && c < len(frame); c++ {
+					cuts[c] = true
+					cuts[len(frame)-1-c] = true
+				}
+				if hdr >= 0 && bytes.HasSuffix(frame, body) {
+					for off := 0; off < len(body); {
+						cuts[hdr+off] = true
+						// tag varint
+						tag, n := uint64(0), 0
+						for sh := uint(0); off+n < len(body); sh += 7 {
+							b := body[off+n]
+							n++
+							tag |= uint64(b&0x7f) << sh
+							if b < 0x80 {
+								break
+							}
+						}
+						off += n
+						switch tag & 7 {
+						case 0:
+							for off < len(body) && body[off] >= 0x80 {
+								off++
+							}
+							off++
+						case 1:
+							off += 8
+						case 5:
+							off += 4
+						case 2:
+							l, n2 := uint64(0), 0
+							for sh := uint(0); off+n2 < len(body); sh += 7 {
+								b := body[off+n2]
+								n2++
+								l |= uint64(b&0x7f) << sh
+								if b < 0x80 {
+									break
+								}
+							}
+							off += n2 + int(l)
+						default:
+							off = len(body)
+						}
+					}
+				}
+				for cut := range cuts {
+					if cut <= 0 || cut >= len(frame) {
+						continue
+					}
+					tdec := rafthttp.VerifNewV2Dec(bytes.NewReader(frame[:cut]), Local, Remote)
+					var tm raftpb.Message
+					err := safely(func() (e error) { tm, e = tdec.Decode(); return })
+					st.Truncations++
+					if err == nil {
+						col.Add(ev.Violation{Property: "C16", Signature: "C16|v2|size|truncation-accepted", What: fmt.Sprintf("entry payload %d bytes: the first %d of %d bytes of the stream decode without error as {%s}, the message sent was {%s}", size, cut, len(frame), desc(&tm), desc(&big))})
+						break
+					}
+				}
+			}
+		}
 		var gb bytes.Buffer
 		gdec := rafthttp.VerifNewMsgDec(&gb)
 		for n, m := range []raftpb.Message{first, third, second} {
